@@ -42,7 +42,9 @@ def sums(values, n, sk):
 def one_run(item):
     from src.optimizer.parameters import Parameters
     from src.scenarios.run_scenario import ScenarioRunner
-    rec = {"iso3": item["iso3"], "option": item["option"]}
+    if "yaml" in item["option"]:
+        item = dict(item, option=ru.presets()[item["option"]["yaml"]])
+    rec = {"iso3": item["iso3"], "option": item["option"], "preset": item.get("preset")}
     try:
         import copy
         eff = ScenarioRunner().alter_scenario_if_known_to_fail(copy.deepcopy(item["option"]), item["iso3"])
